@@ -40,7 +40,7 @@ func (c *c01) Meta() engine.Meta {
 		Technique: "deviation-bounded exhaustive exploration of block histories on the real application, twin-replica differential oracle",
 		Rule: "default = dense 8-block history (all 8 tx types, validator change, passing governance proposal, unbonding+refund, rewards+withdraw, contract deploy/call); " +
 			"deviation slots: every tx position (drop / replace by one of 24 menu templates, 12 of them failing), an append slot per block, per-block absent-signer pattern, evidence entry, proposer; " +
-			"genesis variants g3 (3 validators, neutral limiter), g1 (1 validator), g4L (4 equal validators, limiter 33/33), g3s (small-stake history: power-1 stakes, evidence, jailing), g3pp (four passed proposals applying in the same block with overlapping fields). " +
+			"genesis variants g3 (3 validators, neutral limiter), g1 (1 validator), g4L (4 equal validators, limiter 33/33), g3s (small-stake history: power-1 stakes, evidence, jailing), g3pp (four passed proposals applying in the same block with overlapping fields), g3fz (twenty unbonding stakes, twelve of them refunded in the same block while eight remain). " +
 			"Each history runs on replica A and on replica B in ANOTHER OS PROCESS (separate data directory, TZ changed, restarted once at a case-dependent height; thorough: a third, never restarted replica); compared per call: DeliverTx code/data/gas, EndBlock validator updates (ordered), Commit app hash, Info; and the complete state committed by the last block (the reward ledger's root enters the app hash only at every 10th height, beyond these histories: a state difference is an app-hash difference at that height). " +
 			"distinct_nontrivial = histories with at least one successful and one failed transaction.",
 		Assumptions: []string{
@@ -69,6 +69,25 @@ func (c *c01) build() {
 	pp.Blocks = pp.Blocks[:8]
 	c.base["g3pp"] = pp
 	c.slots["g3pp"] = historySlots(pp, txMenu(), true)
+	// g3fz: many unbonding stakes; twelve of twenty mature (are refunded and removed from the unbonding tree) in the SAME
+	// block while eight remain: the tree's root depends on the order of the removals
+	var mk, rel1, rel2 []sim.TxSpec
+	for i := 0; i < 5; i++ {
+		mk = append(mk, stk("U0", "V1", "1R"), stk("U1", "V1", "1R"), stk("U0", "V0", "1R"), stk("W", "V0", "1R"))
+	}
+	for i := 0; i < 5; i++ {
+		if i < 3 {
+			rel1 = append(rel1, unstk("U0", "U0", "V1", i), unstk("U1", "U1", "V1", i), unstk("U0", "U0", "V0", i), unstk("W", "W", "V0", i))
+		} else {
+			rel2 = append(rel2, unstk("U0", "U0", "V1", i), unstk("U1", "U1", "V1", i), unstk("U0", "U0", "V0", i), unstk("W", "W", "V0", i))
+		}
+	}
+	fz := sim.History{Gen: genesis3(), Blocks: []sim.Block{
+		blk(mk...), blk(), blk(rel1...), blk(rel2...),
+		blk(tr("U0", "U1", "1")), blk(), blk(tr("U1", "U0", "1")), blk(),
+	}}
+	c.base["g3fz"] = fz
+	c.slots["g3fz"] = historySlots(fz, txMenu(), true)
 }
 
 func (c *c01) Prepare(tier string, seed int64) error {
@@ -76,7 +95,7 @@ func (c *c01) Prepare(tier string, seed int64) error {
 	c.build()
 	c.cases = nil
 	maxD := 2
-	for _, v := range []string{"g3", "g1", "g4L", "g3s", "g3pp"} {
+	for _, v := range []string{"g3", "g1", "g4L", "g3s", "g3pp", "g3fz"} {
 		ss := c.slots[v]
 		d := maxD
 		if v != "g3" {
